@@ -64,9 +64,21 @@ func filterEnv(env []string, drop string) []string {
 	return out
 }
 
+func (m *minimiser) exhausted() bool {
+	return m.tests >= m.maxTests || time.Now().After(m.deadline)
+}
+
+// withDecisions returns a shallow copy of s with another decision list (the
+// rest of the spec is shared, read-only).
+func withDecisions(s *Spec, d []verifsim.Decision) *Spec {
+	c := *s
+	c.Decisions = d
+	return &c
+}
+
 // still reports whether the candidate still shows the target violation.
 func (m *minimiser) still(s *Spec) bool {
-	if m.tests >= m.maxTests || time.Now().After(m.deadline) {
+	if m.exhausted() {
 		return false
 	}
 	ro, err := m.replay(s)
@@ -220,25 +232,23 @@ func (m *minimiser) shrinkDecisions(s *Spec) *Spec {
 	if len(s.Decisions) == 0 {
 		return s
 	}
-	c := cloneSpec(s)
-	c.Decisions = nil
+	c := withDecisions(s, nil)
 	if m.still(c) {
 		return c
 	}
 	abs := decToAbs(s.Decisions)
 	// ddmin over the absolute decision list
 	n := 2
-	for len(abs) >= 1 && m.tests < m.maxTests {
+	for len(abs) >= 1 && !m.exhausted() {
 		chunk := (len(abs) + n - 1) / n
 		reduced := false
-		for start := 0; start < len(abs); start += chunk {
+		for start := 0; start < len(abs) && !m.exhausted(); start += chunk {
 			end := start + chunk
 			if end > len(abs) {
 				end = len(abs)
 			}
 			cand := append(append([]absDec{}, abs[:start]...), abs[end:]...)
-			c := cloneSpec(s)
-			c.Decisions = absToDec(cand)
+			c := withDecisions(s, absToDec(cand))
 			if m.still(c) {
 				abs = cand
 				s = c
@@ -331,7 +341,7 @@ func (m *minimiser) run(s *Spec) *Spec {
 		m.last = ro
 	}
 	changed := true
-	for round := 0; changed && round < 4; round++ {
+	for round := 0; changed && round < 4 && !m.exhausted(); round++ {
 		changed = false
 		// 1. drop tasks
 		for t := 0; t < len(s.Tasks) && len(s.Tasks) > 1; t++ {
@@ -341,13 +351,18 @@ func (m *minimiser) run(s *Spec) *Spec {
 				changed = true
 			}
 		}
-		// 2. drop operations
+		// 2. drop operations: per task, chunks first (halves, quarters, ...), then singles
 		for t := 0; t < len(s.Tasks); t++ {
-			for i := 0; i < len(s.Tasks[t]) && len(s.Tasks[t]) > 1; i++ {
-				if c := removeOp(s, t, i); m.still(c) {
-					s = c
-					i--
-					changed = true
+			for chunk := len(s.Tasks[t]) / 2; chunk >= 1 && !m.exhausted(); chunk /= 2 {
+				for i := 0; i+chunk <= len(s.Tasks[t]) && len(s.Tasks[t]) > chunk && !m.exhausted(); {
+					c := cloneSpec(s)
+					c.Tasks[t] = append(append([]Op{}, c.Tasks[t][:i]...), c.Tasks[t][i+chunk:]...)
+					if m.still(c) {
+						s = c
+						changed = true
+					} else {
+						i += chunk
+					}
 				}
 			}
 		}
@@ -392,6 +407,9 @@ func (m *minimiser) run(s *Spec) *Spec {
 		}
 		// 6. shrink shapes
 		for k := range s.Pool {
+			if m.exhausted() {
+				break
+			}
 			c := cloneSpec(s)
 			shrinkRecipe(&c.Pool[k], func() bool {
 				if m.still(c) {
@@ -425,6 +443,7 @@ func cmdMinimise(args []string) int {
 	nsites := fs.Int("sites", 4096, "number of yield sites")
 	maxTests := fs.Int("maxtests", 600, "replay budget")
 	seconds := fs.Float64("seconds", 120, "wall budget")
+	wantKey := fs.String("key", "", "violation key to preserve (default: first race, else first)")
 	_ = fs.Parse(args)
 	var rf ReplayFile
 	if err := readJSONFile(*in, &rf); err != nil {
@@ -447,6 +466,9 @@ func cmdMinimise(args []string) int {
 			key = v.Key
 			break
 		}
+	}
+	if *wantKey != "" {
+		key = *wantKey
 	}
 	m := &minimiser{key: key, sites: *nsites, tmp: tmp, maxTests: *maxTests, deadline: time.Now().Add(time.Duration(*seconds * float64(time.Second))), repeat: 1}
 	if rf.Spec.Free || !rf.Controlled {
